@@ -19,19 +19,21 @@ import jax
 import jax.numpy as jnp
 import equinox as eqx
 
-_MODE = {"concrete": None}     # None: symbolic (tracing only); int: seed of the concrete family
+_MODE = {"concrete": None, "scale": 1.0}     # None: symbolic (tracing only); int: seed of the concrete family; scale: amplitude
 _REGISTRY: dict = {}
 
 
 @contextlib.contextmanager
-def concrete(seed: int):
-    old = _MODE["concrete"]
-    _MODE["concrete"] = int(seed)
+def concrete(seed: int, scale: float = 1.0):
+    """scale: amplitude of every member of the concrete family (tiny / huge candidates reach comparison branches that
+    candidates of ordinary magnitude do not)"""
+    old, olds = _MODE["concrete"], _MODE["scale"]
+    _MODE["concrete"], _MODE["scale"] = int(seed), float(scale)
     jax.clear_caches()          # jitted callees cache their trace: never reuse a trace across modes
     try:
         yield
     finally:
-        _MODE["concrete"] = old
+        _MODE["concrete"], _MODE["scale"] = old, olds
         jax.clear_caches()
 
 
@@ -90,6 +92,7 @@ class Opaque:
         Q = jnp.asarray(rng.uniform(-0.3, 0.3, size=(self.m, self.n, self.n)))
         c = jnp.asarray(rng.uniform(-0.5, 0.5, size=(self.m,)))
         pos = self.positive
+        scale = _MODE["scale"]
 
         def f(y):
             y = jnp.asarray(y)
@@ -98,7 +101,7 @@ class Opaque:
             out = s + q + c
             if pos:
                 out = 4.0 + out / (1.0 + 0.1 * jnp.sum(y * y))
-            return out
+            return out * scale
 
         return f
 
